@@ -309,5 +309,5 @@ inline void absStrlen(State &S, const Val &p, i128 &lo, i128 &hi) {
     }
   }
   if (first) lo = lim - olo;
-  if (!R.gv && R.rd().nulLo >= 0 && R.rd().nulHi >= olo) { hi = R.rd().nulHi - olo; if (lo > hi) lo = hi; if (first && R.rd().nulLo - olo < lo) lo = std::max((i128)0, (i128)R.rd().nulLo - olo); }
+  if (!R.gv) { int64_t ml = -1; int64_t mh = R.rd().nulAfter(olo, &ml); if (mh >= 0) { hi = mh - olo; if (lo > hi) lo = hi; if (first && ml - olo < lo) lo = std::max((i128)0, (i128)ml - olo); } }
 }
